@@ -71,7 +71,7 @@ def plan(tier, seed):
 def gen_case(rng, ctx):
     big = rng.random() < 0.05 and "C" not in ctx.mode
     nmax = 16 if big else (7 if "C" in ctx.mode else 10)
-    cls, ds = gen.dataset(rng, classes="D2 D2 D3 D3 D4 D9 D10 D11 D8 D7 D15 D13", nmax=nmax, mmax=7)
+    cls, ds = gen.dataset(rng, classes="D2 D2 D3 D3 D4 D9 D10 D11 D8 D7 D15 D13 D16 D16 D17", nmax=nmax, mmax=7)
     ds = libx.normalise_raw(ds)
     scls, sch = gen.scheme(rng, "S1 S2 S3 S3 S3 S8 S8 S6 S9 S10 S11")
     return {"ds": ds, "scheme": sch, "dcls": cls, "scls": scls, "libseed": rng.randrange(10 ** 6),
